@@ -81,6 +81,7 @@ func init() {
 			{ID: "G8", Floor: 3, Doc: "the set of node ids that are part of a way is filled for every node of every way of the input before the node pass reads it", Run: c17G8},
 			{ID: "G9", Floor: 1, Doc: "the node pass attempts a point exactly for nodes that are not part of a way, are relation members, or have an interesting tag (finite-domain evaluation of one iteration)", Run: c17G9},
 			{ID: "G10", Floor: 4, Doc: "no 64-bit osm id is narrowed (int, int32, float32, …) on its way into a feature or a lookup in the conversion path", Run: c17G10},
+			{ID: "G11", Floor: 6, Doc: "every key of the meta layout (timestamp, version, changeset, user, uid) is stored from its own element attribute, for every element type, under conditions that mention no other attribute", Run: c17G11},
 		},
 		Mutants: append([]core.Mutant{
 			{Name: "g6-route-way-ignores-relation-tags", File: "osmgeojson/convert.go", Find: "if !hasInterestingTags(way.Tags, nil) {\n\t\t\tctx.skippable[way.ID] = struct{}{}", Replace: "if !hasInterestingTags(way.Tags, relation.Tags.Map()) {\n\t\t\tctx.skippable[way.ID] = struct{}{}", ExpectRule: "G6", ExpectConstruct: "buildRouteLineString"},
